@@ -177,6 +177,21 @@ func (p *Prog) refParamIndex(fn *ssa.Function, i int) int {
 								}
 							}
 						}
+						// reference parameters the function no longer takes, by type (a type dropped twice is ambiguous)
+						if p.droppedRef == nil {
+							p.droppedRef = map[*ssa.Function]map[string]int{}
+						}
+						dr := map[string]int{}
+						for k, rt := range ref {
+							if !used[k] {
+								if _, dup := dr[rt]; dup {
+									dr[rt] = -1
+								} else {
+									dr[rt] = off + k
+								}
+							}
+						}
+						p.droppedRef[fn] = dr
 					}
 				}
 			}
@@ -219,6 +234,39 @@ func (p *Prog) soleCallerArg(fn *ssa.Function, i int) (string, bool) {
 	s := p.R(site.Parent()).E(args[i])
 	delete(p.soleArgBusy, fn)
 	if strings.Contains(s, "$") || strings.Contains(s, "^") || strings.Contains(s, "@") {
+		// parameter narrowing: the function used to take a record and now takes some of its fields — the caller
+		// passes `rec.F` where rec has the type of a parameter the reference signature had and this one dropped:
+		// the argument is that parameter's field
+		v, path := args[i], ""
+		var recT types.Type // the type of the record whose field is taken (outermost)
+	walk:
+		for depth := 0; depth < 6; depth++ {
+			switch x := v.(type) {
+			case *ssa.UnOp:
+				if x.Op != token.MUL {
+					return "", false
+				}
+				v = x.X
+			case *ssa.FieldAddr:
+				path = "." + fieldName(x.X.Type(), x.Field) + path
+				recT = x.X.Type()
+				v = x.X
+			case *ssa.Field:
+				path = "." + fieldName(x.X.Type(), x.Field) + path
+				recT = x.X.Type()
+				v = x.X
+			default:
+				break walk
+			}
+		}
+		if path == "" || recT == nil {
+			return "", false
+		}
+		p.refParamIndex(fn, 0)
+		ts := types.TypeString(recT, func(pk *types.Package) string { return pk.Path() })
+		if k, ok := p.droppedRef[fn][ts]; ok && k >= 0 {
+			return fmt.Sprintf("$%d%s", k, path), true
+		}
 		return "", false
 	}
 	return s, true
